@@ -285,14 +285,15 @@ type TreeCfg struct {
 	MaxStr    int
 	KeyGen    func(t *rapid.T) string // nil: GenString
 	NoFloat   bool
+	LongLists bool // occasionally draw lists of 60-130 scalars (fast paths keyed on length)
 	LeafExtra func(t *rapid.T) (V, bool) // optional extra leaf source
 }
 
 func DefaultTreeCfg() TreeCfg {
 	if Thorough() {
-		return TreeCfg{MaxDepth: 7, MaxWidth: 10, MaxStr: 24}
+		return TreeCfg{MaxDepth: 7, MaxWidth: 10, MaxStr: 24, LongLists: true}
 	}
-	return TreeCfg{MaxDepth: 5, MaxWidth: 6, MaxStr: 16}
+	return TreeCfg{MaxDepth: 5, MaxWidth: 6, MaxStr: 16, LongLists: true}
 }
 
 // GenLeaf draws a scalar.
@@ -345,6 +346,39 @@ func widthFor(t *rapid.T, cfg TreeCfg) int {
 
 // GenListV draws a list node (depth counts container levels available).
 func GenListV(t *rapid.T, cfg TreeCfg, depth int) V {
+	if cfg.LongLists && drawInt(t, 0, 39, "longlist") == 0 {
+		// a long list of cheap scalars: lengths around powers of two and multiples of small block sizes
+		n := []int{60, 63, 64, 65, 66, 67, 96, 100, 127, 128, 129, 130}[drawIdx(t, 12, "longn")]
+		out := V{K: KList, L: make([]V, 0, n)}
+		for i := 0; i < n; i++ {
+			switch drawInt(t, 0, 3, "lk") {
+			case 0:
+				out.L = append(out.L, VInt(drawInt(t, -3, 3, "li")))
+			case 1:
+				out.L = append(out.L, VStr(smallStrings[drawIdx(t, len(smallStrings), "ls")]))
+			case 2:
+				out.L = append(out.L, VFloat(float64(drawInt(t, -4, 4, "lf"))/2))
+			default:
+				out.L = append(out.L, VInt(i))
+			}
+		}
+		return out
+	}
+	if drawInt(t, 0, 11, "repeated") == 0 {
+		// 2-8 scalars over an alphabet of two values: some construction routes share one
+		// element wrapper between equal positions
+		a, b := GenLeaf(t, cfg), GenLeaf(t, cfg)
+		n := drawInt(t, 2, 8, "rn")
+		out := V{K: KList}
+		for i := 0; i < n; i++ {
+			if drawInt(t, 0, 2, "rwhich") == 0 {
+				out.L = append(out.L, b)
+			} else {
+				out.L = append(out.L, a)
+			}
+		}
+		return out
+	}
 	n := widthFor(t, cfg)
 	out := V{K: KList, L: make([]V, 0, n)}
 	for i := 0; i < n; i++ {
